@@ -6,6 +6,7 @@ import subprocess
 import sys
 
 from . import common as C
+from . import typedattr as TA
 from . import fmtgen as G
 from . import c08, c10, c11, c14, c19
 
@@ -212,6 +213,20 @@ def run(tier):
         for src in shapes:
             for d in derives:
                 lines.append(f"expand {d} {C.hexs(src)}"); meta.append((d, src, "kind"))
+        # argument lists over the whole vocabulary of the typed attributes (nested lists, literals, legacy `types(..)`,
+        # keywords), at struct, variant and field level, for every attribute-taking derive
+        n_typed = 0
+        for d in derives:
+            a = re.sub(r"(?<!^)(?=[A-Z])", "_", d).lower()
+            for g in ("into-struct", "from-variant"):
+                pool = TA.templates("into-struct")
+                for k in range(len(pool) + (60 if tier == "quick" else 600)):
+                    attr = ("l", rng.chance(1, 5), list(pool[k])) if k < len(pool) else TA.gen_attr(rng, g)
+                    asrc = TA.attr_src(a, attr)
+                    for src in (f"{asrc}struct S(u8);", f"struct S({asrc}u8, i16);", f"enum E {{ {asrc}A(u8), B }}",
+                                f"{asrc}enum E {{ A(u8), B }}", f"struct S {{ {asrc}a: u8 }}")[(k % 5):(k % 5) + 2]:
+                        n_typed += 1
+                        lines.append(f"expand {d} {C.hexs(src)}"); meta.append((d, src, "typed-attr-args"))
         n_mut = 0
         for d0, src in items:
             for _ in range(3 if tier == "quick" else 10):
